@@ -557,6 +557,7 @@ func runC20(cases string, res *Result) {
 	c20AfterPrefixOperators(res)
 	c20StrictAndLenientEngines(res)
 	c20MethodsAreCalledEachTime(res)
+	c20FieldsAreTheValuesTheyHold(res)
 	var knownFinding *Finding
 	pairsSeen := map[string]bool{}
 
